@@ -370,6 +370,10 @@ func build(t *TV) (reflect.Value, bool) {
 		}
 		out := make([]any, 0, len(t.W))
 		for _, w := range t.W {
+			if t.K != "" { // each window sits under the key K of an object of its own
+				out = append(out, map[string]any{t.K: base[w[0]:w[1]]})
+				continue
+			}
 			out = append(out, base[w[0]:w[1]])
 		}
 		return reflect.ValueOf(out), true
@@ -418,7 +422,7 @@ func (t *TV) MarshalJSON() ([]byte, error) {
 	case "unexp":
 		m["k"], m["v"] = t.K, t.V
 	case "win":
-		m["v"], m["w"] = t.V, t.W
+		m["v"], m["w"], m["k"] = t.V, t.W, t.K
 	}
 	return json.Marshal(m)
 }
@@ -498,6 +502,7 @@ func decodeTV(raw json.RawMessage) *TV {
 		}
 		t.V = xs
 		json.Unmarshal(m["w"], &t.W)
+		t.K = str("k")
 	case "unexp":
 		t.K = str("k")
 		var arr []json.RawMessage
@@ -628,7 +633,10 @@ func canonV(v reflect.Value) string {
 
 func tvUnexp(k string, fs ...*TV) *TV   { return &TV{T: "unexp", K: k, V: fs} }
 func tvWin(base []*TV, w ...[2]int) *TV { return &TV{T: "win", V: base, W: w} }
-func tvSInt(k string, v string) *TV     { return &TV{T: "int", K: k, N: 2, V: v} }
+func tvWinKey(key string, base []*TV, w ...[2]int) *TV {
+	return &TV{T: "win", K: key, V: base, W: w}
+}
+func tvSInt(k string, v string) *TV { return &TV{T: "int", K: k, N: 2, V: v} }
 func tvF32(f float32, n int) *TV {
 	return &TV{T: "f64", N: n, V: fmt.Sprintf("%016x", math.Float64bits(float64(f)))}
 }
